@@ -251,16 +251,25 @@ class DeprecatedOptions:
         has_defines = False
         for dep_opt in sorted(self.r_dic):
             new_opt = self.r_dic[dep_opt]
-            if new_opt in config.syms and _opt_defined(config.syms[new_opt]):
+            if new_opt not in config.syms:
+                continue
+            new_sym = config.syms[new_opt]
+            # As in the sdkconfig and CMake outputs, only bool options are inverted
+            inverted = dep_opt in self.inversions and new_sym.orig_type == BOOL
+            if _opt_defined(new_sym):
                 has_defines = True
                 chunks.append(
                     "#define {}{} {}{}{}\n".format(
                         self.config_prefix,
                         dep_opt,
-                        "!" if dep_opt in self.inversions else "",
+                        "!" if inverted else "",
                         self.config_prefix,
                         new_opt,
                     )
                 )
+            elif inverted and new_sym.config_string:
+                # The new option is written as n (no #define at all), so its inverted alias is y
+                has_defines = True
+                chunks.append("#define {}{} 1\n".format(self.config_prefix, dep_opt))
 
         return "".join(chunks) if has_defines else ""
